@@ -342,7 +342,13 @@ def _ops_pair(ctx, case):
         i = j
     prev = None
     seen_before = set()
-    for t, _, di, cid, frame, established in ordered:
+    # (when two tasks share ONE object the order in which their commands reach the wire is the library's business - a lock below the
+    # serialisation point may legitimately hold one of them back; "consecutive" is then only judged where commands are serialised,
+    # by the process-wide tobytes() monitor, not on the wire)
+    shared_object = bool(extra)
+    if shared_object:
+        ctx.bump("two-tasks-on-one-object: wire order not judged")
+    for t, _, di, cid, frame, established in ([] if shared_object else ordered):
         try:
             cmd = acframe.parse_command(frame)
         except RefError:
